@@ -552,6 +552,15 @@ def valid_mutations(max_steps=8):
     return st.lists(weighted(*alts), max_size=max_steps)
 
 
+def holes_mutations():
+    """Additions and links, then deletions only (several indices free at once, freed in any order, live
+    nodes and link ends above and between them), then at most two additions."""
+    add = st.tuples(st.just("add_node"), st.sampled_from(OP_POOL), SEL, st.one_of(st.none(), st.integers(0, 3)), META).map(list)
+    link = st.one_of(st.tuples(st.just("add_link"), SEL, OFF, SEL, OFF).map(list), st.tuples(st.just("add_order_link"), SEL, SEL).map(list))
+    dele = st.tuples(st.just("delete_node"), SEL).map(list)
+    return st.tuples(st.lists(add, min_size=5, max_size=12), st.lists(link, max_size=5), st.lists(dele, min_size=2, max_size=6), st.lists(add, max_size=2)).map(lambda t: t[0] + t[1] + t[2] + t[3])
+
+
 def reuse_mutations(max_steps=30):
     """Histories dominated by node additions (under any live node) and leaf deletions, so that
     several indices are free at once and get reused under parents of various indices."""
